@@ -58,6 +58,8 @@ pub fn child_main(prop: &str, tier: Tier, seed: u64, out: &Path, hb_dir: &Path, 
         }
     };
     let total = (spec.total)(tier);
+    // VERIF_LIMIT caps the number of case descriptions (used by the determinism self-test)
+    let total = std::env::var("VERIF_LIMIT").ok().and_then(|s| s.parse::<u64>().ok()).map(|l| l.min(total)).unwrap_or(total);
     let threads = jobs();
     let counter = AtomicU64::new(0);
     let stop = AtomicBool::new(false);
@@ -712,4 +714,60 @@ fn one_line(s: &str) -> String {
     } else {
         t
     }
+}
+
+
+// ------------------------------------------------------------------------------------------------
+// Determinism self-test: the same seed must give the same event log whatever the worker count and
+// whichever process runs it (each process has its own hasher keys).
+
+pub fn selftest_main(props_arg: &[String]) -> i32 {
+    let all = ["C01", "C07", "C09", "C10", "C11", "C15", "C17"];
+    let props: Vec<String> = if props_arg.is_empty() { all.iter().map(|s| s.to_string()).collect() } else { props_arg.to_vec() };
+    let seeds: Vec<u64> = std::env::var("VERIF_SELFTEST_SEEDS")
+        .ok()
+        .map(|s| s.split(',').filter_map(|x| x.trim().parse().ok()).collect())
+        .unwrap_or_else(|| vec![DEFAULT_SEED, 1, 7]);
+    let limit = std::env::var("VERIF_LIMIT").unwrap_or_else(|_| "2000".into());
+    let dir = verif_dir().join("run").join("selftest");
+    let _ = std::fs::create_dir_all(&dir);
+    let mut bad = 0;
+    for p in &props {
+        for seed in &seeds {
+            let mut digests: Vec<(String, String, u64, u64)> = Vec::new();
+            for (round, jobs) in [(0, "1"), (1, "4"), (2, "16"), (3, "16")] {
+                let out = dir.join(format!("{p}-{seed}-{round}.json"));
+                let hb = dir.join(format!("hb-{p}-{seed}-{round}"));
+                let mut c = std::process::Command::new(self_exe());
+                c.arg("child").arg(p).arg("quick").arg(seed.to_string()).arg(&out).arg(&hb).arg("-");
+                c.env("VERIF_JOBS", jobs).env("VERIF_LIMIT", &limit);
+                let (st, o) = run_with_timeout(c, Duration::from_secs(1800));
+                if !st.map(|s| s.success()).unwrap_or(false) {
+                    eprintln!("selftest: child failed for {p} seed {seed} jobs {jobs}: {o}");
+                    bad += 1;
+                    continue;
+                }
+                let r: ChildResult = match std::fs::read(&out).ok().and_then(|d| serde_json::from_slice(&d).ok()) {
+                    Some(r) => r,
+                    None => {
+                        bad += 1;
+                        continue;
+                    }
+                };
+                digests.push((jobs.to_string(), format!("{:016x}", r.stats.log_digest), r.stats.evals, r.viol_total));
+                let _ = std::fs::remove_file(&out);
+                let _ = std::fs::remove_dir_all(&hb);
+            }
+            let same = digests.windows(2).all(|w| w[0].1 == w[1].1 && w[0].2 == w[1].2 && w[0].3 == w[1].3);
+            println!(
+                "{p} seed {seed}: {} -> {}",
+                digests.iter().map(|d| format!("jobs={} digest={} evals={} viols={}", d.0, d.1, d.2, d.3)).collect::<Vec<_>>().join(" | "),
+                if same && digests.len() == 4 { "DETERMINISTIC" } else { "DIVERGES" }
+            );
+            if !same || digests.len() != 4 {
+                bad += 1;
+            }
+        }
+    }
+    if bad == 0 { 0 } else { 2 }
 }
